@@ -22,7 +22,7 @@ type RangeLoop struct {
 func RangeLoops(fn *ssa.Function) []*RangeLoop {
 	var out []*RangeLoop
 	for _, b := range fn.Blocks {
-		if len(b.Instrs) < 4 {
+		if len(b.Instrs) < 3 {
 			continue
 		}
 		iff, ok := b.Instrs[len(b.Instrs)-1].(*ssa.If)
@@ -31,6 +31,28 @@ func RangeLoops(fn *ssa.Function) []*RangeLoop {
 		}
 		cmp, ok := iff.Cond.(*ssa.BinOp)
 		if !ok || cmp.Op != token.LSS {
+			continue
+		}
+		// the counting form `for i := 0; i < len(s); i++` (also with the length hoisted into a
+		// local): header: i = phi [0, i+1]; if i < len(s) goto body else done
+		if cphi, isPhi := cmp.X.(*ssa.Phi); isPhi && cphi.Block() == b && len(cphi.Edges) == 2 {
+			zero, step := false, false
+			for i, e := range cphi.Edges {
+				if b.Dominates(b.Preds[i]) {
+					if inc, ok := e.(*ssa.BinOp); ok && inc.Op == token.ADD && inc.X == ssa.Value(cphi) {
+						if one, isC := constInt(inc.Y); isC && one == 1 {
+							step = true
+						}
+					}
+				} else if v, isC := constInt(e); isC && v == 0 {
+					zero = true
+				}
+			}
+			if ln, ok := cmp.Y.(*ssa.Call); ok && zero && step {
+				if bi, ok := ln.Call.Value.(*ssa.Builtin); ok && bi.Name() == "len" {
+					out = append(out, &RangeLoop{Header: b, Body: b.Succs[0], Done: b.Succs[1], Over: ln.Call.Args[0], Idx: cphi, Phi: cphi})
+				}
+			}
 			continue
 		}
 		next, ok := cmp.X.(*ssa.BinOp)
